@@ -103,3 +103,13 @@ Definition stmt_iter_monotone : Prop :=
       it_valid (p_it (pers_of t)) = true -> it_curr (p_it (pers_of t)) <> tl_id ->
       it_curr (p_it (pers_of t')) = tl_id \/
       key (node (sh y) (it_curr (p_it (pers_of t)))) <= key (node (sh y') (it_curr (p_it (pers_of t')))).
+
+(** With the repaired Insert4 (re-check after every upper-level link): at quiescence no marked node is
+    linked at ANY level — a deleted node is off every level when the structure goes idle, so it can be
+    freed.  (False for the original Insert4: a node could be linked at an upper level after its
+    deleter's unlink pass.) *)
+Definition stmt_levels_clean : Prop :=
+  forall progs sched, let y := runS (init progs) sched in
+    quiescentS y = true ->
+    forall l, (l <= sl_level (sh y))%nat ->
+      exists cl, chain_ids (sh y) l = Some cl /\ forall n, In n cl -> marked (sh y) n l = false.
